@@ -23,3 +23,32 @@ package twins
 //@   loop 1 invariant [carried] forall k int :: {g.indices[k]} {old(g.indices[k])} i < k && k < old(len(g.indices)) ==> g.indices[k] == 0 && old(g.indices[k]) == len(g.leadersPartitions) - 1
 //@   loop 1 invariant [untouched] forall k int :: {g.indices[k]} 0 <= k && k <= i ==> g.indices[k] == old(g.indices[k])
 //@   modifies g.indices, g.indices[*], g.remaining, alloc
+
+// ---- checkCommits (C18: "the executor's verdict is 'unsafe' exactly when two non-twin replicas
+// committed different blocks at the same position, and its commit count is the length of the
+// agreed prefix"). qual(net, r, i): replica r has no twin and executed a block at position i.
+//@ pure func qual(net *Network, r hotstuff.ID, i int) bool = has(net.replicas, r) && len(net.replicas[r]) == 1 && len(net.replicas[r][0].executedBlocks) > i
+//@ pure func eblk(net *Network, r hotstuff.ID, i int) hotstuff.Hash = net.replicas[r][0].executedBlocks[i].hash
+//@ pred netwf(net *Network) = net != nil && (forall r hotstuff.ID :: {has(net.replicas, r)} has(net.replicas, r) && len(net.replicas[r]) == 1 ==> net.replicas[r][0] != nil && (forall j int :: {net.replicas[r][0].executedBlocks[j]} 0 <= j && j < len(net.replicas[r][0].executedBlocks) ==> net.replicas[r][0].executedBlocks[j] != nil))
+//@ pred agree(net *Network, i int) = forall r1 hotstuff.ID, r2 hotstuff.ID :: {qual(net, r1, i), qual(net, r2, i)} qual(net, r1, i) && qual(net, r2, i) ==> eblk(net, r1, i) == eblk(net, r2, i)
+
+//@ pred agreeupto(net *Network, n int) = forall j int, r1 hotstuff.ID, r2 hotstuff.ID :: {qual(net, r1, j), qual(net, r2, j)} 0 <= j && j < n && qual(net, r1, j) && qual(net, r2, j) ==> eblk(net, r1, j) == eblk(net, r2, j)
+
+//@ func checkCommits property C18
+//@   requires netwf(network)
+//@   ensures [count] commits >= 0
+//@   ensures [prefix-agreed] agreeupto(network, commits)
+//@   ensures [safe-stops-where-nobody-committed] safe ==> (forall r hotstuff.ID :: {has(network.replicas, r)} !qual(network, r, commits))
+//@   ensures [unsafe-only-on-disagreement] !safe ==> !agree(network, commits)
+//@   modifies alloc
+//@   loop 0 invariant [i] 0 <= i && i <= 35184372088832
+//@   loop 0 invariant [prefix] agreeupto(network, i)
+//@   loop 1 invariant [map] commitCount != nil && fresh(commitCount)
+//@   loop 1 invariant [all-in] forall r hotstuff.ID :: {visited(0, r)} visited(0, r) && qual(network, r, i) ==> has(commitCount, eblk(network, r, i))
+//@   loop 1 invariant [visited-present] forall r hotstuff.ID :: {visited(0, r)} visited(0, r) ==> has(network.replicas, r)
+//@   loop 1 invariant [keys-committed] forall h hotstuff.Hash :: {has(commitCount, h)} has(commitCount, h) ==> (exists r hotstuff.ID :: visited(0, r) && qual(network, r, i) && eblk(network, r, i) == h)
+//@   loop 1 invariant [card] (forall h1 hotstuff.Hash, h2 hotstuff.Hash :: {has(commitCount, h1), has(commitCount, h2)} has(commitCount, h1) && has(commitCount, h2) && h1 != h2 ==> len(commitCount) >= 2) && (forall h hotstuff.Hash :: {has(commitCount, h)} has(commitCount, h) ==> len(commitCount) >= 1)
+//@   loop 1 invariant [card1] len(commitCount) >= 1 ==> (exists h hotstuff.Hash :: has(commitCount, h))
+//@   loop 1 invariant [card2] len(commitCount) >= 2 ==> (exists h1 hotstuff.Hash, h2 hotstuff.Hash :: h1 != h2 && has(commitCount, h1) && has(commitCount, h2))
+//@   loop 1 invariant [none-yet] noCommits ==> (forall r hotstuff.ID :: {visited(0, r)} visited(0, r) ==> !qual(network, r, i))
+//@   loop 1 invariant [some] !noCommits ==> len(commitCount) >= 1 && i < 35184372088832
